@@ -28,6 +28,7 @@ ASAN_ENV = dict(os.environ, ASAN_OPTIONS="detect_leaks=0", UBSAN_OPTIONS="print_
 MSGCLASS = [
     (r"after #define", "defineName"), (r"after '\.\.\.'", "paramAfterEllipsis"),
     (r"or '\)' after macro parameter", "paramComma"), (r"of macro parameter name or", "paramName"),
+    (r"duplicate macro parameter", "dupParam"),
     (r"'##' operator is not yet implemented", "hashhash"), (r"__VA_ARGS__ can only be used", "vaArgs"),
     (r"after '#' operator", "hashIdent"), (r"is not a macro parameter name", "hashNotParam"),
     (r"redefinition of macro", "redefinition"), (r"after #undef", "undefName"),
@@ -536,11 +537,16 @@ def gen_program(rng, H):
     L = []
     gvars = ["ga", "gb", "gc"]
     L.append("int ga = 3, gb = 4, gc = 5;")
+    # a name that survives replacement (self or mutual reference, 6.10.3.4p2) must denote something
+    L.append("int K0 = 10, K1 = 11, K2 = 12, K3 = 13, K4 = 14;")
     L.append("int fa(int x) { return x + 1; }")
     L.append("int fb(int x, int y) { return x * y; }")
     objs, funs = [], {}
 
+    avail = {}
+
     def expr(depth, params, ml=False):
+        funs = avail["funs"]
         r = rng.random()
         if depth > 2 or r < 0.25:
             c = [str(rng.randint(0, 99))] + gvars + list(params)
@@ -580,16 +586,21 @@ def gen_program(rng, H):
     sigs = {f: (rng.randint(0, 3), rng.random() < 0.3) for f in fnames}
     sigs["fa"] = (1, False)
     # definitions in an order that allows forward references: all names are usable in all bodies
+    # object-like macros may refer to each other in cycles (a name that survives is the variable of that name);
+    # a function-like macro refers to object-like ones and to function-like ones defined before it (and `fa`
+    # to itself): no call of an undeclared function survives
     objs[:] = onames
-    funs.update({f: sigs[f] for f in fnames})
+    avail["funs"] = {}
     for o in onames:
         L.append("#define %s (%s)" % (o, expr(1, [])))
         H["prog-object-like"] += 1
     for f in fnames:
+        avail["funs"] = {g: sigs[g] for g in fnames[:fnames.index(f)]}
         n, va = sigs[f]
         ps = PARAMS[:n]
         body_params = ["(" + p + ")" for p in ps]
         if f == "fa":
+            avail["funs"] = {}                     # everything may call fa: fa itself calls no macro function
             body = "fa((a) + %s)" % expr(2, ["(a)"])
         elif va:
             body = "fb(%s, fva(%d, __VA_ARGS__))" % (expr(1, body_params) if ps else "1", rng.randint(1, 9))
@@ -598,7 +609,8 @@ def gen_program(rng, H):
             body = expr(0, body_params)
         L.append("#define %s(%s) (%s)" % (f, ", ".join(ps + (["..."] if va else [])), body))
         H["prog-function-like"] += 1
-    L.insert(3, "int fva(int n, ...) { return n; }")
+    avail["funs"] = {g: sigs[g] for g in fnames}
+    L.insert(2, "int fva(int n, ...) { return n; }")
     # stringification, token-level macros
     L.append("#define STR(x) #x")
     L.append("#define XSTR(x) STR(x)")
@@ -617,7 +629,7 @@ def gen_program(rng, H):
         if r < 0.35:
             body.append("DECL(T, v%d, %s);" % (k, expr(0, [], True)))
         elif r < 0.5:
-            words = [rng.choice(["a", "b+c", '"q"', "'\\\\'", "x  y", "1,2", "(p,q)", "K0", "-  1", '"a\\\\n"']) for _ in range(rng.randint(1, 3))]
+            words = [rng.choice(["a", "b+c", '"q"', "'\\\\'", "x  y", "(1,2)", "(p,q)", "K0", "-  1", '"a\\\\n"']) for _ in range(rng.randint(1, 3))]
             body.append("const char *s%d = %s(%s);" % (k, rng.choice(["STR", "XSTR"]), " ".join(words)))
             H["prog-stringize"] += 1
         elif r < 0.62:
@@ -630,10 +642,13 @@ def gen_program(rng, H):
         elif r < 0.88 and len(onames) > 1:
             o = rng.choice(onames[:nobj])
             body.append("#undef %s" % o)
+            keep = avail["funs"]
+            avail["funs"] = {}
             body.append("#define %s (%s)" % (o, expr(1, [])))
+            avail["funs"] = keep
             H["prog-undef-define"] += 1
         else:
-            body.append("ga CAT3(+, =, %s);" % expr(1, []))
+            body.append("gc CAT3(=, %s, + 1);" % expr(1, [], True))
     L.append("int test(int x, int y)\n{")
     L += ["\t" + b if not b.startswith("#") else b for b in body]
     L.append("\treturn %s;\n}" % expr(0, ["x", "y"], True))
@@ -716,12 +731,6 @@ def classify(X, text, r, m, s):
     ev, fl = m.notes, s.notes
     if s.err == "redefinitionSpace" and r.err != "redefinition":
         return "macroequal-ignores-space"
-    if s.err == "dupParam" and r.err is None:
-        return "dup-param-accepted"
-    if s.err == "vaArgs" and r.err is None:
-        return "va-args-first-token-unchecked"
-    if s.err == "argCount" and r.err is None:
-        return "extra-empty-arg-accepted"
     if "pragmaPeek" in ev:
         return "pragma-funclike-lookahead"
     if "dirInPeek" in ev:
@@ -743,6 +752,15 @@ def one(X, text, plain=True):
 
 
 def examine(X, texts, label, expect=None, asan=None):
+    import time
+    t0 = time.time()
+    try:
+        return examine1(X, texts, label, expect, asan)
+    finally:
+        X.secs[label] = round(X.secs.get(label, 0) + time.time() - t0, 1)
+
+
+def examine1(X, texts, label, expect=None, asan=None):
     """K-A three-way on `texts` (str).  The plain build of the harness runs every input in both modes; the
     ASan+UBSan build runs the first `asan` inputs (all when None) in `pp` mode: a sanitizer report is a result."""
     ck = X.ck
@@ -797,8 +815,6 @@ def examine(X, texts, label, expect=None, asan=None):
                 X.known[fid] = X.known.get(fid, 0) + 1
                 if ck.known(fid):
                     ck.report({}, fid=fid)
-                    continue
-                if fid in os.environ.get("C12_DEV_KNOWN", "").split(","):
                     continue
             small, why2 = t, why
             if True:
@@ -1045,7 +1061,7 @@ def run(ck):
         "cproc-qbe.  Reference validated against gcc and clang.  distinct_nontrivial = distinct input texts.")
     X = Ctx()
     X.ck = ck
-    X.ninputs, X.errs, X.events, X.known, X.kinds_seen, X.outlen = {}, {}, {}, {}, {}, {}
+    X.ninputs, X.errs, X.events, X.known, X.kinds_seen, X.outlen, X.secs = {}, {}, {}, {}, {}, {}, {}
     try:
         kinds, tokstr = load_kinds()
     except Exception as e:  # noqa
@@ -1115,14 +1131,20 @@ def run(ck):
         examine(X, progs, "valid-programs")
         ck.sample({"valid program": progs[0][:900]})
     if not ck.violations:
+        import time
+        t0 = time.time()
         X.ninputs["K-B programs whose expanded text cproc-qbe rejects"] = run_kb(X, progs)
+        X.secs["K-B"] = round(time.time() - t0, 1)
     # 7. the reference itself against gcc and clang
     if not ck.violations:
         vt = main[:500 if quick else 4000] + [t for t, _ in (red[:150 if quick else 800])] + \
             sorted(set(t for t, _ in errs)) + progs[:60 if quick else 300]
+        t0 = time.time()
         validate_spec(X, vt, "gen")
+        X.secs["validate_spec"] = round(time.time() - t0, 1)
     ck.cov["input_distribution"] = dict(sorted(H.items()))
     ck.cov["inputs_per_set"] = X.ninputs
+    ck.cov["seconds_per_stage"] = X.secs
     ck.cov["diagnostic_classes_hit"] = X.errs
     ck.cov["model_events_and_reference_flags"] = X.events
     ck.cov["known_finding_hits"] = X.known
